@@ -73,6 +73,16 @@ class Space:
             return start, end
         return [[None, "meter", 1]], [[None, "foot", 1]]
 
+    def alt(self, rng, start):
+        """another spec of the same dimension, factor by factor"""
+        end = []
+        for p, name, e in start:
+            alts = self.by_dim[dimkey(self.units[name]["d"])]
+            end.append([self.rand_prefix(rng), rng.choice(alts), e])
+        if rng.random() < 0.3:
+            rng.shuffle(end)
+        return end
+
     def spec_unit(self, spec):
         """canonical (prefix value as Fraction, factors, dims) of a spec, computed independently of the implementation"""
         from sizes import pval
